@@ -44,6 +44,11 @@ def stages(tier, seed, bins):
                 c["data"] = "gauss"  # ties would make the neighbour lists depend on the search method
         else:
             c["timesteps"] = rnd.choice([1, 2, 3, 5, 10])
+        # the same data measured in another unit (widths / kernel parameters converted with it): every clause is scale free
+        if rnd.random() < 0.15:
+            xs = rnd.choice([1e-6, 1e-3, 1e3, 1e6])
+            c["xscale"] = xs
+            c["width"] = repr(float(c["width"]) * xs * xs)
         cases.append(c)
     # sizes beyond any "small problem" switch an implementation may have (size-gated code paths, e.g. `if (N > 1000)`)
     for N in ([1100] if tier != "thorough" else [1001, 1100, 1500]):
